@@ -9,7 +9,7 @@ from C15_util import NAMES, ops_universe
 PID = "C15"
 PROP_FILES = ["Prop"]
 ALLOWED_AXIOMS = []
-RULE = ("histories of set k v / set (k,k') v / del k / delattr k / sd.default = g / del sd.default (StrategyDict) / REJECTED assignment of an unhashable value "
+RULE = ("histories of set k v / set (k,k') v / del k / delattr k / sd.default = g / del sd.default (StrategyDict) / del d[TUPLE] (empty tuple, 1-tuple, stored key tuple, any other: KeyError and nothing may change) / tuple and non-tuple keys in d[t], t in d, get, pop, key2keys / REJECTED assignment of an unhashable value "
         "(list, dict, set, bytearray, object with __eq__ and no __hash__: TypeError, a MultiKeyDict must be unchanged) / "
         "several objects in one history (fresh ones and MultiKeyDicts built from existing MultiKeyDict / StrategyDict objects in four spellings, every object observed after every step: the copy shows the source's view, afterwards each follows its own model) / "
         "read-only lookups (d[k], d[(k,)], key2keys, value2keys of stored and never stored values, in, iteration, len/keys/"
@@ -41,7 +41,10 @@ FINDINGS = ["StrategyDict names that break the UNCHANGED code (not generated): '
             "'keys' (dict(sd) / MultiKeyDict(sd) call sd.keys()), 'key2keys' (del sd[name] calls self.key2keys), 'default' (the "
             "name is the default slot itself), '_keys_dict' / '_inv_dict' / '__name__' (instance attributes overwritten by setattr), "
             "'__doc__' / '__class__' / '__dict__' (setattr raises AFTER the item was stored: item without attribute)",
-            "copy.copy(mkd) / copy.deepcopy(mkd) raise KeyError for a non-empty MultiKeyDict"]
+            "copy.copy(mkd) / copy.deepcopy(mkd) raise KeyError for a non-empty MultiKeyDict",
+            "dict.pop / popitem / clear / update / setdefault are not overridden by MultiKeyDict: d.pop(stored key tuple) "
+            "removes the storage entry only (len 0, iteration still yields the value, d[k] raises KeyError(tuple)); the "
+            "property text speaks of assignments, deletions and lookups, so only REFUSED pops are generated"]
 
 _GEN_CALLS = []   # tiers gen_dict was called with in this process: a 'thorough' call after a 'quick' one is the
                   # driver's widened search after a broken obligation and must stay bounded
@@ -62,17 +65,23 @@ def gen_dict(tier, rng):
       for h in itertools.product(Uo, repeat=2):
         yield _legacy(strategy, h, "exh2")
     if tier == "thorough" and not widened:
-      for n in (3, 4):
-        for h in itertools.product(Uo, repeat=n):
+      for n in (3, 4):   # length 4 without the (always refused) tuple deletions: 21^4 + 24^4 histories
+        for h in itertools.product(Uo if n == 3 else ops_universe(3, 2, strategy, False), repeat=n):
           yield _legacy(strategy, h, "exh%d" % n)
     else:
-      for _ in range(900 if not widened else 1000):
+      for _ in range(600 if not widened else 1000):
         yield _legacy(strategy, [rng.choice(Uo) for _ in range(rng.choice([3, 3, 4, 5, 6]))], "rand3-6")
     U2 = ops_universe(6, 4, strategy) + [["set", [rng.randrange(6) for _ in range(3)], v] for v in range(1, 5) for _ in range(10)]
     for _ in range(100 if tier == "quick" else (100 if widened else 3000)):
       yield _legacy(strategy, [rng.choice(U2) for _ in range(rng.randrange(8, 41))], "long", 6, 4)
+    # far longer than anything else here: 150-250 operations over 12 (7 names) keys x 6 values
+    if not widened:
+      nkh = 7 if strategy else 12
+      U3 = ops_universe(nkh, 6, strategy)
+      for _ in range(3 if tier == "quick" else 30):
+        yield _legacy(strategy, [rng.choice(U3) for _ in range(rng.randrange(150, 251))], "huge", nkh, 6)
     # round 2: value kinds, rejected assignments, lookups, constructor argument
-    per = {"quick": 1100, "thorough": 20000}[tier] if not widened else 2000   # widened search: ~6 000 extra cases in all
+    per = {"quick": 900, "thorough": 20000}[tier] if not widened else 2000   # widened search: ~6 000 extra cases in all
     for i in range(per):
       kind = kinds[i % len(kinds)]
       if i % 10 == 0:
@@ -88,11 +97,11 @@ def gen_dict(tier, rng):
 
 def _expect(op):
   """exception type an operation may raise (recorded as raised); anything else aborts the case"""
-  if op[0] == "del": return (KeyError,)
+  if op[0] in ("del", "delt"): return (KeyError,)
   if op[0] in ("delattr", "deldef"): return (AttributeError,)
   if op[0] == "setbad": return (TypeError,)
   if op[0] == "obs":
-    if op[1] in ("get", "k2k"): return (KeyError,)
+    if op[1] in ("get", "k2k", "tup", "no"): return (KeyError,)
     if op[1] == "bad": return (TypeError,)
   return ()
 
@@ -110,11 +119,39 @@ def _observe(d, op, K, V, strategy, names):
   elif qk == "iter":
     list(d); next(iter(d), None)
     for _ in d: break
-  elif qk == "misc": (len(d), list(dict.keys(d)), list(dict.values(d)), list(dict.items(d)), repr(d), bool(d), dict.copy(d), d == d)
+  elif qk == "misc":
+    try: getattr(d, "__doc__")     # StrategyDict: generated from the current strategies at every read
+    except Exception: pass
+    (len(d), list(dict.keys(d)), list(dict.values(d)), list(dict.items(d)), repr(d), bool(d), dict.copy(d), d == d)
   elif qk == "hasattr": (hasattr(d, names[arg]), getattr(d, names[arg], None), hasattr(d, "default"))
   elif qk == "call":
     if strategy: (d(), d.default)
     else: len(d)
+  elif qk == "tup":
+    # a tuple as the key of a lookup: subscription, membership and get must agree; "not found" is the step's flag
+    t = tuple(K(k) for k in arg)
+    S = object()
+    try: r1 = d[t]
+    except KeyError: r1 = S
+    r2, r3 = t in d, dict.get(d, t, S)
+    if not ((r1 is S) == (not r2) == (r3 is S)) or (r1 is not S and r1 is not r3):
+      raise RuntimeError("tuple lookups disagree")
+    if r1 is S:
+      raise KeyError(t)
+  elif qk == "no":
+    # lookups that can never find anything; the refused pop must not touch the dict either
+    k = K(arg); S = object()
+    probes = [k, (), (k, k)]
+    for t in ((), (k,), (k, k)):   # a tuple is never a key of key2keys either
+      try: MultiKeyDict.key2keys(d, t); raise RuntimeError("key2keys found a tuple")
+      except KeyError: pass
+    found = [k in d, dict.get(d, k, S) is not S, dict.pop(d, k, S) is not S, dict.pop(d, (), S) is not S, dict.pop(d, (k, k), S) is not S]
+    for p in probes:
+      try: dict.pop(d, p); found.append(True)
+      except KeyError: pass
+    if any(found):
+      raise RuntimeError("a lookup that cannot succeed found something: %r" % found)
+    raise KeyError(k)
   elif qk == "bad":
     bad = U.make_bad(U.BAD_KINDS[var % len(U.BAD_KINDS)])
     [lambda: d[bad], lambda: MultiKeyDict.key2keys(d, bad), lambda: MultiKeyDict.value2keys(d, bad)][arg % 3]()
@@ -175,6 +212,8 @@ def _apply(d, strategy, op, K, V, vk, names):
       del d[K(op[1])]
     elif op[0] == "delattr":
       delattr(d, K(op[1]))
+    elif op[0] == "delt":      # a TUPLE as the key of a deletion: empty, 1-tuple, stored key tuple, any other
+      del d[tuple(K(k) for k in op[1])]
     elif op[0] == "setdef":
       d.default = V(op[1], op[2])
     elif op[0] == "deldef":
@@ -267,9 +306,12 @@ def _lit_op(op):
   if op[0] == "setbad": return "OSetBad %s" % ks(op[1])
   if op[0] == "del": return "ODel %d" % op[1]
   if op[0] == "delattr": return "ODelAttr %d" % op[1]
+  if op[0] == "delt": return "ODelT %s" % ks(op[1])
   if op[0] == "setdef": return "OSetDefault %d" % op[1]
   if op[0] == "deldef": return "ODelDefault"
-  q = {"get": "(QGet %d)" % op[2], "k2k": "(QK2K %d)" % op[2], "v2k": "(QV2K %d)" % op[2], "bad": "QBad"}.get(op[1], "QPure")
+  if op[1] == "tup": q = "(QTup %s)" % ks(op[2])
+  elif op[1] in ("get", "k2k", "v2k"): q = "(Q%s %d)" % ({"get": "Get", "k2k": "K2K", "v2k": "V2K"}[op[1]], op[2])
+  else: q = {"bad": "QBad", "no": "QNo"}.get(op[1], "QPure")
   return "OObs %s" % q
 
 
@@ -293,6 +335,8 @@ def nontrivial_dict(c, o):
     if op[0] in ("set", "setbad"):
       if any(k in seen for k in op[1]): overwrite = True
       if op[0] == "set": seen.update(op[1])
+    elif op[0] == "delt":
+      pass
     elif op[0] in ("del", "delattr") and op[1] in seen:
       overwrite = True
   return multi and overwrite
@@ -312,7 +356,7 @@ def lit_multi(c, o):
 def gen_multi(tier, rng):
   widened = tier == "thorough" and "quick" in _GEN_CALLS_M
   _GEN_CALLS_M.append(tier)
-  n = 1500 if widened else {"quick": 1000, "thorough": 15000}[tier]
+  n = 1500 if widened else {"quick": 800, "thorough": 15000}[tier]
   for i in range(n):
     if i % 8 == 0:
       yield U.rand_multi(rng, 5, 3, 10, 24, "multi-long")
